@@ -226,9 +226,8 @@ def run_jobs(jobs, flag_bits, procs=None):
 
 def _linecol(text, index):
     if isinstance(text, bytes):
-        nl = b'\n'
-    else:
-        nl = '\n'
+        return 1, index + 1          # bytes input is a single line (C09)
+    nl = '\n'
     line = 1 + text.count(nl, 0, index)
     col = 1 + index - (text.rfind(nl, 0, index) + 1)
     return line, col
@@ -307,6 +306,11 @@ def _job_api(job):
                     add('spec', entry, pos, text, full, real, g[full], s[full])
                 elif not model_ok:
                     add('model', entry, pos, text, full, real, g[full], s[full])
+                # the three outcomes are distinct: "input remains" is not a kind of "does not match", nor the other way round
+                if real[0] == 'P' and isinstance(raw, module.ParseError):
+                    add('spec', entry, pos, text, full, real, g[full], s[full], 'the PartialParseError raised is also an instance of ParseError')
+                if real[0] == 'E' and isinstance(raw, module.PartialParseError):
+                    add('spec', entry, pos, text, full, real, g[full], s[full], 'the ParseError raised is also an instance of PartialParseError')
                 # line / column of every instance and of the partial position (C10 / C09)
                 if job.get('check_linecol') and real[0] in ('V', 'P'):
                     val = raw if real[0] == 'V' else raw.partial_result
